@@ -5,6 +5,7 @@ import (
 	"crypto/tls"
 	"errors"
 	"fmt"
+	"io"
 	"log/slog"
 	"net"
 	"sync"
@@ -88,13 +89,34 @@ func (p *quicPeer) acceptLoop() {
 		p.mu.Lock()
 		sc := p.cur
 		p.mu.Unlock()
-		go p.handle(conn, sc)
+		go p.handle(sc, conn.ConnectionState().TLS, conn,
+			func(drop bool) {
+				if drop {
+					conn.CloseWithError(1, "drop")
+				} else {
+					conn.CloseWithError(0, "")
+				}
+			},
+			func(ctx context.Context) (qstream, error) {
+				s, err := conn.AcceptStream(ctx)
+				if err != nil {
+					return nil, err
+				}
+				return s, nil
+			})
 	}
 }
 
 // qconn is what the peer uses of a quic.Connection (the type itself is not imported: the harness
 // module lists quic-go as an indirect dependency only)
 type qconn interface{ Context() context.Context }
+
+type qstream interface {
+	io.Reader
+	io.Writer
+	io.Closer
+	SetReadDeadline(time.Time) error
+}
 
 func waitDone(conn qconn, d time.Duration) {
 	select {
@@ -103,8 +125,8 @@ func waitDone(conn qconn, d time.Duration) {
 	}
 }
 
-func (p *quicPeer) handle(conn scionQUICConn, sc *script) {
-	st := conn.ConnectionState().TLS
+func (p *quicPeer) handle(sc *script, st tls.ConnectionState, conn qconn, closeConn func(drop bool),
+	acceptStream func(context.Context) (qstream, error)) {
 	o := connObs{hsOK: true, negotiated: st.NegotiatedProtocol}
 	o.c2s, _ = st.ExportKeyingMaterial(rfcLabel, rfcC2S, 32)
 	o.s2c, _ = st.ExportKeyingMaterial(rfcLabel, rfcS2C, 32)
@@ -115,19 +137,19 @@ func (p *quicPeer) handle(conn scionQUICConn, sc *script) {
 	case p.handled <- struct{}{}:
 	default:
 	}
-	defer conn.CloseWithError(0, "")
+	defer closeConn(false)
 	if sc == nil {
 		return
 	}
 	out := sc.sent()
 	if len(out) == 0 && sc.ending == 1 {
 		// the connection is dropped before a byte of the message is sent
-		conn.CloseWithError(1, "drop")
+		closeConn(true)
 		return
 	}
 	ctx, cancel := context.WithTimeout(context.Background(), 30*time.Second)
 	defer cancel()
-	stream, err := conn.AcceptStream(ctx)
+	stream, err := acceptStream(ctx)
 	if err != nil {
 		return
 	}
